@@ -32,6 +32,9 @@ INCLUDES = [
 ]
 
 
+DEBUG = bool(os.environ.get("VERIF_DEBUG"))
+
+
 def log(*a):
     print(*a, file=sys.stderr, flush=True)
 
@@ -53,7 +56,7 @@ def build_harness(src, extra_flags=()):
     out = os.path.join(BUILD, "harness", os.path.splitext(src)[0])
     libs = [os.path.join(BUILD, "symfp", l) for l in ("libSimTKsimbody.so", "libSimTKmath.so", "libSimTKcommon.so")]
     deps = [srcp, os.path.join(VERIF, "harness", "common.h"), os.path.join(VERIF, "engine/symfp/symfp.h"),
-            os.path.join(BUILD, "libsymfp.so"), os.path.join(BUILD, "libsymfp_rt.so")]
+            os.path.join(BUILD, "libsymfp.so"), os.path.join(BUILD, "libsymfp_rt.so"), os.path.join(BUILD, "libsymfp_lapack.so")]
     # harness must be rebuilt when any repo header changes: depend on the newest library as a proxy
     stamp = max(os.path.getmtime(d) for d in deps + libs if os.path.exists(d))
     stamp = max(stamp, newest_header_mtime())
@@ -63,7 +66,7 @@ def build_harness(src, extra_flags=()):
            "-I" + os.path.join(VERIF, "engine/symfp"), "-I" + os.path.join(VERIF, "harness")]
     cmd += ["-I" + os.path.join(REPO, i) for i in INCLUDES]
     cmd += list(extra_flags)
-    cmd += [srcp, "-o", out + ".tmp%d" % os.getpid(), "-L" + os.path.join(BUILD, "symfp"), "-lSimTKsimbody", "-lSimTKmath", "-lSimTKcommon",
+    cmd += [srcp, "-o", out + ".tmp%d" % os.getpid(), "-L" + BUILD, "-Wl,--no-as-needed", "-lsymfp_lapack", "-L" + os.path.join(BUILD, "symfp"), "-lSimTKsimbody", "-lSimTKmath", "-lSimTKcommon",
             "-L" + BUILD, "-lsymfp_rt", "-lpthread", "-Wl,-rpath," + os.path.join(BUILD, "symfp"), "-Wl,-rpath," + BUILD]
     env = dict(os.environ, SYMFP_BUILD=BUILD)
     r = subprocess.run(cmd, capture_output=True, text=True, env=env)
@@ -134,30 +137,56 @@ def run_harness(binary, args, seeds, concrete=False, tag="", timeout=300, env_ex
 
 
 # --------------------------------------------------------------------------- seeds
-ANGLE_W = [Fraction(p, r) for r in range(3, 12) for p in range(-r, r + 1) if p and abs(Fraction(p, r)) < Fraction(38, 100) and math.gcd(p, r) == 1]
+# w = tan(q/8): small denominators keep the exact (sin,cos) of q/4, q/2, q short
+ANGLE_W = [Fraction(p, r) for r in (2, 3, 4, 5) for p in range(-r + 1, r) if p and math.gcd(p, r) == 1]
 
 
-def plan_seeds(inputs, rng, base_index):
-    """deterministic exact base point: returns (seeds: name->float, angle_pins: name->Fraction w)"""
+PYTH4 = [(1, 2, 2, 4), (2, 4, 5, 6), (1, 4, 4, 4), (2, 3, 6, 0), (1, 2, 8, 10), (4, 4, 7, 0), (2, 2, 1, 0), (1, 1, 1, 1), (3, 3, 3, 3)]
+# squares sum to 25, 81, 49, 49, 169, 81, 9, 4, 36
+
+
+def plan_seeds(inputs, rng, base_index, Lmap=None):
+    """deterministic exact base point: returns (seeds: name->float, angle_pins: name->(Fraction w, L))"""
     seeds, pins = {}, {}
+    Lmap = Lmap or {}
+    nquat = 0
+    quad, qscale = None, None
     for name, kind, node, dflt in inputs:
         if kind == "angle":
+            L = Lmap.get(name, 1)
+            if L not in (1, 2, 3, 4, 6, 8):
+                L = 1
             w = rng.choice(ANGLE_W)
-            pins[name] = w
-            seeds[name] = 8.0 * math.atan(float(w))
-        elif kind == "fixed" or kind == "lin0":
+            pins[name] = (w, L)
+            seeds[name] = 2.0 * L * math.atan(float(w))
+        elif kind == "fixed":
             seeds[name] = dflt
+        elif kind == "quat":
+            # consecutive groups of four 'quat' inputs get a scaled Pythagorean quadruple: rational norm
+            if nquat % 4 == 0:
+                quad = list(rng.choice(PYTH4))
+                rng.shuffle(quad)
+                quad = [x * rng.choice((1, -1)) for x in quad]
+                qscale = rng.choice((Fraction(1, 8), Fraction(1, 4), Fraction(1, 16)))
+            seeds[name] = float(quad[nquat % 4] * qscale)
+            nquat += 1
         else:
             if base_index == 0:
                 v = dflt
             else:
                 v = dflt * (1 + rng.randint(-3, 3) / 8.0) if dflt != 0 else rng.randint(-4, 4) / 8.0
-            # dyadic with <= 10 fractional bits: exact as double and as Fraction
-            v = round(v * 1024) / 1024.0
-            if v == 0 and dflt != 0:
-                v = dflt
-            seeds[name] = v
+            # dyadic on a 1/16 grid: exact as double and short as a Fraction
+            v2 = round(v * 16) / 16.0
+            if v2 == 0 and dflt != 0:
+                v2 = round(v * 256) / 256.0 or dflt
+            seeds[name] = v2
     return seeds, pins
+
+
+def angle_units(trace):
+    """per angle input: the LCD of its coefficients over all trig arguments of the trace"""
+    enc = Encoder(trace, free_all=True)
+    return {k[1]: L for k, L in enc.atom_L.items() if k[0] == "in"}
 
 
 # --------------------------------------------------------------------------- obligations
@@ -255,6 +284,8 @@ class Settings:
         self.rlimit = int(os.environ.get("VERIF_RLIMIT", 30000000 if tier == "quick" else 200000000))
         self.cvc5_every = int(os.environ.get("VERIF_CVC5_EVERY", 7 if tier == "quick" else 3))
         self.cvc5_tlimit = 10 if tier == "quick" else 30
+        self.max_terms = int(os.environ.get("VERIF_MAX_TERMS", 12000 if tier == "quick" else 150000))
+        self.z3_timeout_ms = int(os.environ.get("VERIF_Z3_TIMEOUT_MS", 120000 if tier == "quick" else 600000))
 
 
 def compare_shadow_native(sym, conc, rtol=1e-9, atol=1e-11):
@@ -302,7 +333,10 @@ def goal_numeric(enc, ob, tol=1e-7):
         val = 0.0
         mag = 0.0
         for m, cf in c.p.items():
-            t = float(cf)
+            try:
+                t = cf.numerator / cf.denominator
+            except OverflowError:
+                t = math.inf
             for vi, e in m:
                 t *= enc.vals[vi] ** e
             val += t
@@ -360,8 +394,9 @@ def check_instance(spec, inst, st):
         res.errors.append(str(e))
         return res
     inputs = probe.inputs
+    Lmap = angle_units(probe)
     for g in range(nbase):
-        seeds, angle_pins = plan_seeds(inputs, rng, g)
+        seeds, angle_pins = plan_seeds(inputs, rng, g, Lmap)
         if hasattr(spec, "adjust_seeds"):
             spec.adjust_seeds(inst, seeds, angle_pins, rng, g)
         try:
@@ -421,23 +456,46 @@ def check_path(spec, inst, st, res, rng, tr, seeds, angle_pins, g):
         t0 = time.time()
         free_all = free == "ALL"
         enc = Encoder(tr, free=() if free_all else free, angle_pins=angle_pins, free_all=free_all,
-                      max_terms=inst.get("max_terms", 60000))
+                      max_terms=inst.get("max_terms", st.max_terms))
         try:
             obs = spec.obligations(enc, inst, tr)
             pc = enc.path_condition()
         except P.TooBig as e:
-            res.inconclusive.append(dict(instance=inst["name"], base=g, free=sorted(free) if not free_all else "ALL", reason="encoder size limit: %s" % e))
-            continue
+            # fall back to the linearly occurring inputs only (every coordinate pinned at the base point)
+            lin = [n for n in (free if not free_all else []) if tr.input_by_name[n][1] == "lin"]
+            done = getattr(res, "_reduced_done", set())
+            res._reduced_done = done
+            keyr = (inst["name"], g, tuple(sorted(lin)))
+            if free_all or keyr in done:
+                if free_all:
+                    res.inconclusive.append(dict(instance=inst["name"], base=g, free="ALL", reason="encoder size limit: %s" % e))
+                else:
+                    res.extra["free_sets_dropped_as_duplicates_after_size_fallback"] = res.extra.get("free_sets_dropped_as_duplicates_after_size_fallback", 0) + 1
+                continue
+            done.add(keyr)
+            res.extra["free_sets_reduced_to_linear_inputs_by_size_limit"] = res.extra.get("free_sets_reduced_to_linear_inputs_by_size_limit", 0) + 1
+            free = lin
+            try:
+                enc = Encoder(tr, free=free, angle_pins=angle_pins, max_terms=inst.get("max_terms", st.max_terms))
+                obs = spec.obligations(enc, inst, tr)
+                pc = enc.path_condition()
+            except P.TooBig as e2:
+                res.inconclusive.append(dict(instance=inst["name"], base=g, free=sorted(free), reason="encoder size limit even with coordinates pinned: %s" % e2))
+                continue
         except EncodeError as e:
             res.errors.append("encode error on %s: %s" % (inst["name"], e))
             continue
         res.encode_time += time.time() - t0
+        if DEBUG:
+            log("[%s g%d f%d] free=%s encoded in %.2fs stats=%s maxterms=%d pc=%d" % (inst["name"], g, fi, free if free_all else sorted(free)[-3:], time.time() - t0, enc.stats, max((len(p) for p in enc.memo.values()), default=0), len(pc)))
         bad = enc.check_numeric()
         if bad:
             res.errors.append("encoder != shadow on %s base %d free %s: %s" % (inst["name"], g, free, bad[:3]))
             continue
         res.max_terms = max(res.max_terms, max((len(p) for p in enc.memo.values()), default=0))
         res.assumptions |= set(enc.assumptions)
+        if enc.stats.get("literals_tied_in_exact_arithmetic"):
+            res.extra["path_literals_tied_in_exact_arithmetic_dropped"] = res.extra.get("path_literals_tied_in_exact_arithmetic_dropped", 0) + enc.stats["literals_tied_in_exact_arithmetic"]
         pchyps = [c for _, c in pc]
         # the seed must satisfy every hypothesis numerically (witness of reachability)
         for c in pchyps:
@@ -451,7 +509,37 @@ def check_path(spec, inst, st, res, rng, tr, seeds, angle_pins, g):
             smt, names = q.smt()
             if q.nontrivial():
                 res.nontrivial += 1
-            r, model, dt = run_z3(smt, names, rlimit=st.rlimit, seed=st.seed & 0xFFFF)
+            has_inv = any(enc.ring.kind[v] == "inv" for cc in ob.goal for v in enc.ring.vars_of(cc.p))
+            all_eq = all(cc.rel == 1 for cc in ob.goal)
+            r = None
+            if has_inv and all_eq:
+                # (a) direct: the solver reasons with I*den=1; only attempted when the formula is small
+                if len(smt) < 60000:
+                    r, model, dt = run_z3(smt, names, rlimit=min(st.rlimit, 3000000), seed=st.seed & 0xFFFF, timeout_ms=20000)
+                    res.queries += 1
+                    res.solver_time += dt
+                    if r in ("sat", "unsat"):
+                        res.extra["decided_direct_with_inverse_vars"] = res.extra.get("decided_direct_with_inverse_vars", 0) + 1
+                    else:
+                        r = None
+                if r is None:
+                    # (b) denominators cleared exactly in the encoder: goal * prod(den^k), no inverse variable left
+                    try:
+                        cg = [Constraint(1, enc.clear_inverses(cc.p)[0], cc.why + " [denominators cleared]") for cc in ob.goal]
+                    except P.TooBig as e:
+                        res.inconclusive.append(dict(instance=inst["name"], base=g, obligation=ob.name, reason="clearing denominators: %s" % e))
+                        continue
+                    q = Query(enc, ob.name, pchyps + ob.hyps, cg, ob.extra_smt, goal_any=ob.any)
+                    smt, names = q.smt()
+                    res.extra["decided_after_clearing_denominators"] = res.extra.get("decided_after_clearing_denominators", 0) + 1
+                    r = None
+            if r is None:
+                r, model, dt = run_z3(smt, names, rlimit=st.rlimit, seed=st.seed & 0xFFFF, timeout_ms=st.z3_timeout_ms)
+            else:
+                res.queries -= 1
+                res.solver_time -= dt
+            if DEBUG:
+                log("  [%s g%d f%d] %s -> %s %.2fs (smt %d chars, vars %d)" % (inst["name"], g, fi, ob.name, r, dt, len(smt), len(names)))
             res.queries += 1
             res.solver_time += dt
             if len(res.samples) < 3 and q.nontrivial():
@@ -480,7 +568,7 @@ def check_path(spec, inst, st, res, rng, tr, seeds, angle_pins, g):
             if ob.twin is not None and (res.twins < 4 or st.tier == "thorough" or hash(key) % 5 == 0):
                 qt = Query(enc, ob.name + " twin", pchyps + ob.hyps, ob.twin)
                 smt2, names2 = qt.smt()
-                rt, mt, dtt = run_z3(smt2, names2, rlimit=st.rlimit, seed=1)
+                rt, mt, dtt = run_z3(smt2, names2, rlimit=st.rlimit, seed=1, timeout_ms=st.z3_timeout_ms)
                 res.queries += 1
                 res.solver_time += dtt
                 res.twins += 1
@@ -505,7 +593,7 @@ def flip_decisions(spec, inst, st, res, enc, pc, seeds):
         q = Query(enc, "flip d%d" % idx, hyps + extra + [c.negated()], [])
         smt, names = q.smt()
         smt = smt.replace("(assert (not true))", "")
-        r, model, dt = run_z3(smt, names, rlimit=st.rlimit // 4, seed=3)
+        r, model, dt = run_z3(smt, names, rlimit=st.rlimit // 4, seed=3, timeout_ms=30000)
         res.queries += 1
         res.solver_time += dt
         if r == "sat":
@@ -567,7 +655,7 @@ def _worker(a):
         raise
     except Exception:
         r = Result()
-        r.errors.append("worker exception on %s: %s" % (inst.get("name"), traceback.format_exc()[-1500:]))
+        r.errors.append("worker exception on %s: %s" % (inst.get("name"), traceback.format_exc()[-3000:]))
         return r
 
 
@@ -583,6 +671,9 @@ def run_symfp_check(specname, tier, seed, jobs=None):
     bt = build_instrumented()
     st = Settings(tier, seed)
     insts = spec.instances(tier, seed)
+    only = os.environ.get("VERIF_ONLY")
+    if only:
+        insts = [i for i in insts if only in i["name"]]
     bins = {}
     for i in insts:
         h = i.get("harness", spec.HARNESS)
